@@ -109,3 +109,23 @@ prop("C02", harness="C02",
      trusted_base=["vlplugin persistence/mem", "vlapi codec"],
      assumptions=["the session stays durable (no expiry elapses) during a history", "Maximum Packet Size filtering is not modelled"],
 )
+
+prop("C18",
+     coq=["gen/Extracted.v", "model/Queue.v", "proofs/QueueProofs.v", "chk/C18chk.v", "props/C18.v"],
+     n={"quick": 300, "thorough": 6000, "search": 900},
+     shard=25,
+     shrink_fields=["ops"],
+     rule="70% sequential op sequences on types.Queue (Add/Remove/Peek/Length/Get incl. negative and out-of-range indices) whose fill level is steered to targets "
+          "{3,15,16,17,31,...,257} (1%: up to 1025; thorough also up to 4097) with counter-steps so that head/tail travel around the ring, compared element-wise with the model AND the list FIFO spec; "
+          "10% concurrent producers/consumers (1-4 x 1-4, 50-350 elements each): every element exactly once, per-producer order at each consumer; "
+          "10% OnceWait with 2-32 callers: action ran once, no caller returned before it finished (event log); "
+          "10% worker pool (size 1-8, queue 0-4, pre-spawn 0-size, 10-70 tasks): every accepted task ran exactly once, at most size running at once. "
+          "non-trivial = sequential case whose peak fill exceeds 16 (a resize happened) or any concurrent case; distinct by case JSON.",
+     level_text="Theorem (coq/props/C18.v): the ring buffer of types/queue.go refines the list FIFO for EVERY operation sequence (unbounded length: every growth/shrink threshold), "
+                "with the invariant capacity = 2^k (k>=4, the constant minQueueLen is re-extracted from the source on every run); proved via the rotation view and the bit-mask = modulo lemma. "
+                "Since every Go method holds the mutex for its whole body, concurrent executions are interleavings of these atomic operations. "
+                "Partial: OnceWait and Pool are NOT yet modelled as transition systems; their contracts are checked on recorded executions by Coq oracle functions (support, not proof); the Go memory model is trusted.",
+     level_note="Trusted: Coq kernel + vm_compute; hand translation of queue.go; tools/goextract (minQueueLen); sync.RWMutex/Go memory model; the OnceWait/Pool oracles are tests.",
+     trusted_base=["sync.RWMutex and the Go memory model", "tools/goextract: minQueueLen"],
+     assumptions=["each Queue method is atomic (holds the mutex for its whole body)"],
+)
